@@ -14,7 +14,7 @@ META = {
                                'c03-be-2d', 'c03-be-scalar', 'c03-le-2d', 'c03-special', 'c03-rand', 'c03-cast',
                                'c03-src-inline', 'c03-src-dict', 'c03-src-struct', 'c03-src-hdf5', 'c03-struct-fastpath',
                                'c03-struct-permuted', 'c03-struct-aligned', 'c03-struct-view', 'c03-struct-packed', 'c03-cast-history',
-                               'c03-cast-declared-equal-to-derived']
+                               'c03-cast-declared-equal-to-derived', 'c03-many-rows']
                      + ['c03-dtype-' + d for d in gen.DTYPES]},
     'exhaustive_windows': {
         'quick': ['8 dtypes x byte order {<,>} x shape {(N,),(N,1),(N,3)} x layout {C,F,strided,view,readonly} x fill special (N=5, inline)'],
@@ -46,6 +46,9 @@ def cases(tier, seed):
         yield {'stratum': 'random-cast', 'index': k, 'kind': 'random-cast'}
     for k in range(120 if tier == 'quick' else 3000):
         yield {'stratum': 'struct-fastpath', 'index': k, 'kind': 'fastpath'}
+    # many rows: frame numbers cross the UVARI widths (127/128, 16383/16384)
+    for k, n in enumerate([126, 127, 128, 129, 300] if tier == 'quick' else [126, 127, 128, 129, 300, 16383, 16384, 16385, 20000]):
+        yield {'stratum': 'many-rows', 'index': k, 'kind': 'many-rows', 'rows': n}
     # declared casts over a history: write, (re)declare the cast, write other data of another dtype
     for k in range(80 if tier == 'quick' else 2000):
         yield {'stratum': 'cast-history', 'index': k, 'kind': 'cast-history'}
@@ -99,7 +102,19 @@ def run_case(case):
                                     c['data'].get('fill', {}).get('kind'), c.get('cast_dtype')) for c in chans][:6],
                       'write': w, 'max_record_length': sp['sul']['max_record_length']}
 
-    if case['kind'] == 'cast-history':
+    if case['kind'] == 'many-rows':
+        r = gen.rng(seed, PROP, case['stratum'], case['index'])
+        n = case['rows']
+        sp = gen.base_spec(8192)
+        sp['ops'].append(gen.origin_op())
+        sp['ops'].append(gen.channel_op('I', '<u4', (n,), fill={'kind': 'pos', 'tag': 1}))
+        sp['ops'].append(gen.channel_op('V', '>i2', (n, 2), fill={'kind': 'pos', 'tag': 2}))
+        sp['ops'].append(gen.frame_op('LONG', [1, 2]))
+        sp['write'] = {'output_chunk_size': 2 ** 20, 'input_chunk_size': r.choice([None, 100, 127, 128, 5000]),
+                       'source': r.choice(['inline', 'dict', 'hdf5'])}
+        bump('c03-many-rows')
+        go(sp)
+    elif case['kind'] == 'cast-history':
         import numpy as np
         from vf import spec as S
         r = gen.rng(seed, PROP, case['stratum'], case['index'])
